@@ -161,6 +161,11 @@ def run(tier):
         cases += [b"return " + b"(" * depth + b"1" + b")" * depth, b"x=" + b"{" * depth + b"}" * depth, b"do " * depth + b"end " * depth,
                   b"return " + b"-" * depth + b"1", b"return " + b"not " * depth + b"1", b"x=" + b"1+" * depth + b"1", b"return " + b"function() " * depth + b"end " * depth,
                   b"x=" + b"a." * depth + b"a", b"--[" + b"=" * depth + b"[", b'x="' + b"\\" * depth, b"x=" + b"f" + b"()" * depth]
+    # far deeper than any goroutine stack allows a recursive compiler to go: the loader has to bound the nesting itself
+    # (a Go stack overflow is a fatal error: the child process dies, seen here as 'crash')
+    for depth in ([3000000] if thorough else [1500000]):
+        cases += [b"return " + b"#" * depth + b"x", b"x=" + b"a." * depth + b"a", b"x=f" + b"()" * depth, b"x=" + b"{" * depth + b"}" * depth,
+                  b"x=" + b"a[" * depth + b"1" + b"]" * depth, b"return " + b"not " * depth + b"x", b"x=a" + b":m()" * depth]
     # goto / label programs, valid and semantically wrong (jump into the scope of a local, missing or
     # duplicate label, across functions), in nested blocks and below functions with parameters
     wrappers = ["%s", "do %s end", "local a do %s end", "local a, b, c do do %s end end", "for i = 1, 2 do %s end", "while x do local q %s end",
